@@ -218,3 +218,31 @@ for _cls, _guard in (('Element', 'not is_varies_class(self)'), ('SupportComplexD
 contract('hl7apy.core:Element.is_z_element', sig={'self': 'Element'}, returns='bool',
          raises={}, raises_only=[], modifies=[], interface=True, verify=False, properties=['C04'],
          notes='four pure one-line definitions (False / a name pattern test): assumed pure; which answer is given is not used')
+
+# ---- Field.add / Component.add: the interface contract of Element.add, now proved for these two overrides as well (they
+# only add a guard that raises MaxChildLimitReached before delegating to Element.add)
+contract('hl7apy.core:is_base_datatype', sig={'datatype': 'str?', 'version': 'str?'}, returns='bool',
+         raises={'UnsupportedVersion': {}}, raises_only=['UnsupportedVersion'], modifies=[], interface=True, verify=False,
+         notes='lib.is_base_datatype through importlib: external, assumed pure')
+for _cls in ('Field', 'Component'):
+    # (Component.add reads obj.datatype: verified for the objects it is meant for, SubComponents; any other element goes
+    #  through __getattr__ and ends in ChildNotValid - outside this contract, covered by the interface's raises)
+    contract('hl7apy.core:%s.add' % _cls, sig={'self': _cls, 'obj': 'Element' if _cls == 'Field' else 'SubComponent'}, returns='none', exact_self=True,
+             requires=['sep(self.children)', 'self.children.element is self'],
+             ensures=ADD_ENSURES,
+             raises=dict(ADD_RAISES, UnsupportedVersion={'ensures': ADD_RAISES['ChildNotValid']['ensures'], 'modifies': []}),
+             modifies=ADD_MODIFIES, allocates=['La.R', 'Ll'], properties=['C09', 'C10', 'C12', 'C05'])
+
+# ---- _is_valid_child: the interface says "pure, raises only ChildNotFound / ChildNotValid"; the definitions are run
+# against exactly that (frame + raises_only)
+for _cls in ('Element', 'Segment', 'Group', 'SupportComplexDataType'):
+    contract('hl7apy.core:%s._is_valid_child%s' % (_cls, '[impl]' if _cls == 'Element' else ''),
+             sig={'self': _cls if _cls != 'SupportComplexDataType' else 'Field',
+                  'child': 'Element' if _cls != 'SupportComplexDataType' else 'Component'}, returns='bool', exact_self=True,
+             requires=['implies(self.structure_by_name is not None, self.structure_by_longname is not None)'] +
+                      (['self.name is not None', 'self.structure_by_name is not None'] if _cls == 'Segment' else []),
+             ensures=[], raises={'ChildNotFound': {}, 'ChildNotValid': {}, 'UnsupportedVersion': {}},
+             raises_only=['ChildNotFound', 'ChildNotValid', 'UnsupportedVersion'],
+             modifies=[], allocates=True, properties=['C05', 'C11'],
+             # (372 paths, 2 240 obligations, about 7 minutes of VC generation: thorough tier only)
+             thorough_only=(_cls == 'SupportComplexDataType'))
